@@ -23,6 +23,7 @@ import VaxisModel.Lemmas.VxfwBodyRun
 import VaxisModel.Lemmas.VxfwBodyTree
 import VaxisModel.Lemmas.VxfwBodyAll
 import VaxisModel.Lemmas.VxfwBodySel
+import VaxisModel.Lemmas.VxfwBodyKnot
 import VaxisModel.Props.C15
 import VaxisModel.Props.C15Err
 
@@ -584,5 +585,53 @@ example :
     ((runFrameBlock (parseBody Gen.VxfwBodies.runFrameBlock) C (St.init 0) t t).map (·.2) = some .cont) ∧
     ((runFrameBlock (parseBody Gen.VxfwBodies.runFrameBlock) C { St.init 0 with redraw := true } t t).map
         (fun r => (r.1.redraw, r.1.lastFrame.ch.map (·.2.2.2.id), r.2)) = some (false, [2, 1], .norm)) := by decide +kernel
+
+/-! ## Round 4: the knot `handleCommand ↔ focusWidget` and the Run loop with no model function of the dispatch inside -/
+
+/-- All the regenerated bodies, parsed. -/
+def genAll : AllBodies :=
+  ⟨genBodies, genCallees, parseBody Gen.VxfwBodies.handleCommand, parseBody Gen.VxfwBodies.runEventBlock,
+   parseBody Gen.VxfwBodies.runFrameBlock⟩
+
+theorem genAll_eq : genAll = Lemmas.VxfwBodyKnot.expA := by
+  unfold genAll Lemmas.VxfwBodyKnot.expA
+  rw [genBodies_eq, genCallees_eq, handle_command_body_as_expected, run_blocks_as_expected.1, run_blocks_as_expected.2,
+    Lemmas.VxfwBodyX.parse_hc, Lemmas.VxfwBodySel.parse_re, Lemmas.VxfwBodySel.parse_rf]
+
+/-- **The knot is the model's command interpreter.**  `kHandleCommand` = the body of `App.handleCommand` executed with
+    `a.fh.focusWidget(a, cmd)` = the body of `focusWidget` executed with `app.handleCommand(cmd)` = the knot again one budget lower
+    (and `f.findPath()` = the body of `findPath` → `childHasFocus`), down to budget 0 where the model gives up (`stuck`; in Go only
+    the stack bounds the recursion — F115c).  For EVERY budget, oracle, failing-call set, state and command value it computes
+    `eHandleCommand` — no model function inside. -/
+theorem knot_eq_model (e : EOracle) (n : Nat) (s : St) (c : Cmd) :
+    kHandleCommand genAll e n s c = some (eHandleCommand e n s c) := by
+  rw [genAll_eq]
+  exact Lemmas.VxfwBodyKnot.knot_hc e n s c
+
+/-- … and the `focusWidget` half of the knot is `eFocusWidget`. -/
+theorem knot_focus_widget_eq_model (e : EOracle) (n : Nat) (s : St) (w : Id) :
+    kFocusWidget genAll e n s w = some (eFocusWidget e (n + 1) s w) := by
+  rw [genAll_eq]
+  exact Lemmas.VxfwBodyKnot.knot_fw e n s w
+
+/-- **`App.Run` with the knot inside is `eRun`.**  `kRun`: the prologue (transcribed: focus handler init, `Init{}` dispatched,
+    first layout), then the loop over the two EXECUTED arms of the `select`, which call the EXECUTED bodies of
+    `focusHandler.handleEvent`, `mouseHandler.handleEvent`, `mouseEnter`, `mouseExit`, `update`, `updatePath`, whose callees
+    `app.handleCommand` (= the knot), `m.update`, `f.findPath`, `f.focusWidget`, `hitTest`, `containsPoint`, `childHasFocus` are
+    executed bodies too.  Not executed syntax: `select` / channel / timer, the three statements of the prologue, the widgets' `Draw`
+    (oracle trees), `sort.Slice` (`sortTree`), and inside `mouseHandler.update` the `app.handleCommand` calls of the hover
+    notifications (`eHandleCommand`, equal to the knot by `knot_eq_model`).  Every history, oracle, failing-call set; final state
+    (whole trace) and returned error. -/
+theorem run_knot_eq_model (e : EOracle) (fuel : Nat) (root : Id) (t0 : STree) (steps : List Step) :
+    kRun genAll e fuel root t0 steps = some (eRun e (fuel + 1) root t0 steps) := by
+  rw [genAll_eq]
+  exact Lemmas.VxfwBodyKnot.kRun_eq e fuel root t0 steps
+
+/-- Non-vacuity: the chain oracle through the knot — `focus 1` at budget 3: widget 1's FocusIn handler focuses 2 (nested
+    `handleCommand` at budget 2 → `focusWidget` → …); at budget 1 the nested command finds the budget exhausted. -/
+example :
+    (kHandleCommand genAll (e0 C15.chainOracle) 3 (St.init 0) (.focus 1)).map (fun s => (s.focused, s.calls, s.stuck)) = some (2, 4, false) ∧
+    (kHandleCommand genAll (e0 C15.chainOracle) 1 (St.init 0) (.focus 1)).map (fun s => (s.focused, s.stuck)) = some (1, true) := by
+  decide +kernel
 
 end VaxisModel.Props.C15Body
